@@ -101,19 +101,6 @@ def check(ctx: Ctx) -> list[RuleResult]:
         r2.ok({"fraction": norm(divs[0])})
     else:
         r2.fail(f"{fe.short}:fraction", fe.loc(), "the expired fraction is no longer age / lifespan")
-    # latch precedes recomputation
-    r2.instances += 1
-    r2.nontrivial += 1
-    body = [s for s in ex.node.body if not isinstance(s, (ast.FunctionDef, ast.Expr))]
-    first = body[0] if body else None
-    ok_latch = False
-    if isinstance(first, ast.If) and norm(first.test) == "self._fraction_expired is not None":
-        inner = [norm(s) for s in first.body]
-        ok_latch = any("self._fraction_expired == self.CANT_EXPIRE" in s and "return False" in s for s in inner) and any("self._fraction_expired >= self.HAS_EXPIRED" in s and "return True" in s for s in inner)
-    if ok_latch:
-        r2.ok({"latch": "CANT_EXPIRE -> False, already expired -> True, before any recomputation"})
-    else:
-        r2.fail(f"{ex.short}:latch", ex.loc(), "_expired no longer starts with the latch (CANT_EXPIRE -> False; fraction >= HAS_EXPIRED -> True): expiry could un-happen")
     # a "not expired" verdict is never served from the memo: in the decision table of _expired every row that answers False
     # without re-computing the fraction (no call of the age/fraction helper) is the "cannot expire" case
     from ..predeval import PredEval as _PE, Unsupported as _Un
@@ -126,9 +113,27 @@ def check(ctx: Ctx) -> list[RuleResult]:
         raise AnalysisError(f"Message._expired is not a decision procedure the evaluator understands: {err}") from err
     CANT = "self._fraction_expired == self.CANT_EXPIRE"
     LIFE = "self._pkt._lifespan"
-    if CANT not in tabx.atoms or LIFE not in tabx.subjects:
+    LIFE_F = "self._pkt._lifespan is False"  # the same test when the lifespan is first read into a local
+    if CANT not in tabx.atoms or (LIFE not in tabx.subjects and LIFE_F not in tabx.atoms):
         raise AnalysisError(f"Message._expired: expected tests not found (atoms={tabx.atoms}, subjects={list(tabx.subjects)})")
-    stale = [a for a, r in tabx.rows if r is False and not a["__effects__"] and not (a.get(LIFE) is False or (a.get(CANT) is True and a.get("self._fraction_expired") is not None))]
+    # latch: once a verdict is memoised as expired (fraction >= HAS_EXPIRED) or cannot-expire, it is returned without recomputation
+    # (no call on that path) - expiry never un-happens. Read off the same table.
+    r2.instances += 1
+    r2.nontrivial += 1
+    GE = "self._fraction_expired >= self.HAS_EXPIRED"
+    FRS = "self._fraction_expired"
+    if GE not in tabx.atoms:
+        raise AnalysisError(f"Message._expired: the memoised fraction is never compared with HAS_EXPIRED (atoms={tabx.atoms})")
+    memo_rows = [(a, r) for a, r in tabx.rows if a.get(FRS, "?") is not None]
+    unlatched = [(a, r) for a, r in memo_rows if (a.get(CANT) is True and (r is not False or a["__effects__"])) or (a.get(CANT) is not True and a.get(GE) is True and (r is not True or a["__effects__"]))]
+    if not memo_rows:
+        raise AnalysisError("Message._expired: no row with a memoised fraction in the decision table")
+    if unlatched:
+        a0, r0 = unlatched[0]
+        r2.fail(f"{ex.short}:latch", ex.loc(), "_expired does not return a memoised verdict as it is (cannot-expire -> False; already expired -> True, both without recomputation): expiry could un-happen: " + tabx.describe({k: v for k, v in a0.items() if k != "__effects__"})[:200] + f" -> {r0}, calls {list(a0['__effects__'])[:2]}")
+    else:
+        r2.ok({"latch": "CANT_EXPIRE -> False, already expired -> True, before any recomputation", "rows": len(memo_rows)})
+    stale = [a for a, r in tabx.rows if r is False and not a["__effects__"] and not (a.get(LIFE) is False or a.get(LIFE_F) is True or (a.get(CANT) is True and a.get("self._fraction_expired") is not None))]
     if stale:
         a0 = stale[0]
         r2.fail(f"{ex.short}:false-from-memo", ex.loc(), "_expired can answer False from the memoised fraction without re-computing it from the clock: a message evaluated once while young is never seen to expire: " + tabx.describe({k: v for k, v in a0.items() if k != "__effects__"})[:260])
@@ -239,7 +244,7 @@ def check(ctx: Ctx) -> list[RuleResult]:
     out.append(r4)
 
     # ---- R5 ---------------------------------------------------------------------------
-    r5 = RuleResult("R5", "among several candidate messages the newest is chosen", "every definition of the message handed to _msg_value_msg is a keyed lookup (one candidate) or max() over all candidates; Message orders by dtm", min_instances=3)
+    r5 = RuleResult("R5", "among several candidate messages the newest is chosen", "every definition of the message handed to _msg_value_msg is a keyed lookup (one candidate) or max() over all candidates; Message orders by dtm", min_instances=2)
     mvc = repo.func(f"{EB}._MessageDB._msg_value_code")
     calls = [n for n in own_nodes(mvc.node) if isinstance(n, ast.Call) and norm(n.func) == "self._msg_value_msg" and n.args]
     if not calls or not isinstance(calls[0].args[0], ast.Name):
@@ -271,39 +276,33 @@ def check(ctx: Ctx) -> list[RuleResult]:
     r6 = RuleResult("R6", "payload-defined lifetimes take precedence", "decision table of Message._expired's update chain: every non-RQ 1F09 uses the payload countdown", min_instances=3)
     from ..predeval import _clone
 
-    chain = [st for st in ex.node.body if isinstance(st, ast.If) and any(isinstance(n, ast.Assign) and norm(n.targets[0]) == "self._fraction_expired" for n in ast.walk(st)) and any("remaining_seconds" in norm(n) for n in ast.walk(st))]
-    if len(chain) != 1:
-        raise AnalysisError("Message._expired: the chain that updates _fraction_expired (incl. the remaining_seconds case) was not found")
-
-    class _ToReturn(ast.NodeTransformer):
-        def visit_Assign(self, node: ast.Assign):  # noqa: N802
-            if norm(node.targets[0]) == "self._fraction_expired":
-                return ast.copy_location(ast.Return(value=ast.Constant(value=norm(node.value))), node)
-            return node
-
-    synth_body = [_ToReturn().visit(_clone(chain[0], {}))]
-    synth = ast.FunctionDef(name="_update", args=ast.arguments(posonlyargs=[], args=[ast.arg(arg="self")], kwonlyargs=[], kw_defaults=[], defaults=[]), body=synth_body, decorator_list=[], type_params=[])
-    ast.fix_missing_locations(synth)
-    from ..loader import FuncInfo as _FI
+    # read off the decision table of the whole function (with effects): in every row for a non-RQ 1F09 whose verdict is not latched,
+    # the lifetime is computed from the payload's countdown - i.e. some call made on that path reads `remaining_seconds`
     from ..predeval import PredEval, Unsupported
 
     verbs = [ctx.const("ramses_tx.const", k) for k in ("I_", "RQ", "RP", "W_")]
     try:
-        tab = PredEval(ctx, _FI(ex.qualname + ".<update>", "_update", synth, ex.module, ex.cls, None), domains={"self.verb": verbs, "self.code": ["1F09"]}).table()
+        tab = PredEval(ctx, ex, domains={"self.verb": verbs, "self.code": ["1F09"]}).table()
     except Unsupported as err:
-        raise AnalysisError(f"Message._expired: update chain not understood: {err}") from err
+        raise AnalysisError(f"Message._expired: not a decision procedure the evaluator understands: {err}") from err
+    if not any("remaining_seconds" in e for a, _r in tab.rows for e in a["__effects__"]):
+        raise AnalysisError("Message._expired: no path reads the payload's remaining_seconds")
     rqv = ctx.const("ramses_tx.const", "RQ")
+    FR = "self._fraction_expired"
     for vb in verbs:
         if vb == rqv:
             continue
         r6.instances += 1
         r6.nontrivial += 1
-        bad = [(a, r) for a, r in tab.rows if a.get("self.code") == "1F09" and a.get("self.verb") == vb and not (isinstance(r, str) and "remaining_seconds" in r)]
+        rows_v = [(a, r) for a, r in tab.rows if a.get("self.code") == "1F09" and a.get("self.verb") == vb and a.get(FR, None) is None]
+        if not rows_v:
+            raise AnalysisError(f"Message._expired: no un-latched row for {vb.strip()}|1F09 in the decision table")
+        bad = [(a, r) for a, r in rows_v if not any("remaining_seconds" in e for e in a["__effects__"]) and not (isinstance(r, tuple) and r and r[0] == "raise")]
         if bad:
             a, r = bad[0]
-            r6.fail(f"{ex.short}:sync-cycle-lifetime:verb={vb.strip()}", ex.loc(chain[0]), f"a {vb.strip()}|1F09 does not take its lifetime from the payload's countdown when {tab.describe({k: v for k, v in a.items() if k not in ('self.code', 'self.verb')})}: it gets `{r}` instead (an RP/W 1F09 has a table lifetime of zero, stored as False = 'cannot expire')")
+            r6.fail(f"{ex.short}:sync-cycle-lifetime:verb={vb.strip()}", ex.loc(), f"a {vb.strip()}|1F09 does not take its lifetime from the payload's countdown when {tab.describe({k: v for k, v in a.items() if k not in ('self.code', 'self.verb', '__effects__')})[:200]}: verdict `{r}` with calls {list(a['__effects__'])[:3]} (an RP/W 1F09 has a table lifetime of zero, stored as False = 'cannot expire')")
         else:
-            r6.ok({"verb": vb.strip(), "code": "1F09", "lifetime": "payload countdown (remaining_seconds) in every row"})
+            r6.ok({"verb": vb.strip(), "code": "1F09", "lifetime": "payload countdown (remaining_seconds) in every un-latched row", "rows": len(rows_v)})
     r6.info = {"decision_table_rows": len(tab.rows), "flags": tab.atoms}
     out.append(r6)
 
